@@ -411,6 +411,7 @@ def run(ctx):
     d1_framing(ctx)
     d2_no_body(ctx)
     d3_length(ctx)
+    d2_interim(ctx)
     d4_chunk(ctx)
     d5_header(ctx)
     d6_keepalive(ctx)
@@ -423,6 +424,32 @@ def run(ctx):
     from . import c19
     from .common import RemapCtx
     c19.run(RemapCtx(ctx, {'C19-D1': 'C08-D8', 'C19-D2': 'C08-D8', 'C19-D3': 'C08-D8', 'C19-D4': 'C08-D8'}))
+
+
+def d2_interim(ctx):
+    """RFC 7231 6.2: a client MUST be able to parse one or more 1xx responses received prior to a final response, even if it does not
+    expect one.  The header block Session.start hands out as *the* response of the exchange is therefore read in a loop that is left
+    only on a status outside 1xx: a reader that returns the first block delivers `103 Early Hints` as the answer and leaves the real
+    answer in the connection, where it is parsed as the response to the next request."""
+    repo, ck = ctx.repo, ctx.check
+    st = repo.func('wpull.protocol.http.client:Session.start')
+    pm = U.parents(st.node)
+    reads = [c for c in U.calls(st.node) if U.attr_name(c) == 'read_response']
+    if not reads:
+        raise AnalysisError('Session.start: read_response() not found')
+    # a re-read loop governed by the status: `while True: read; if final: break` or `read; while interim: read`
+    ok = False
+    for loop in [x for x in walk_no_nested(st.node) if isinstance(x, ast.While)]:
+        if not any(any(c is y for y in ast.walk(loop)) for c in reads):
+            continue
+        tests = [loop.test] + [x.test for x in ast.walk(loop) if isinstance(x, ast.If)]
+        if any(any(isinstance(y, ast.Attribute) and y.attr == 'status_code' for y in ast.walk(t)) for t in tests):
+            ok = True
+    for c in reads[:1]:
+        ck.expect(ok, 'C08-D2', st.qual, 'interim (1xx) responses are read past before the response of the exchange is handed out',
+                  'the first header block is returned as the response: `HTTP/1.1 103 Early Hints` (or `100 Continue`) becomes the answer '
+                  'with an empty body, and the final response left in the connection is parsed as the answer to the next request on it',
+                  st.loc(c))
 
 
 def d6_read_awaited(ctx, which=('wpull.protocol.http.client:Session.download', 'wpull.protocol.ftp.client:Session.download',
